@@ -192,6 +192,24 @@ def _install_compile_points():
     for name in ('compile', '_compile_from', '_compile_targets', '_compile_group_by', '_compile_order_by', '_compile_pivot_by'):
         if name in C.__dict__:
             setattr(C, name, pointed(C.__dict__[name], f'compile:{name}'))
+    # execution phase before the first row: derivation of the period view (OPEN / CLOSE / CLEAR), start of a scan
+    from beanquery import query_env, query_execute, cursor
+    summ = getattr(query_env, 'summarize', None)
+    if summ is not None:
+        for name in ('open_opt', 'close_opt', 'clear_opt', 'open', 'close', 'clear', 'truncate', 'clamp_opt'):
+            fn = getattr(summ, name, None)
+            if callable(fn) and not getattr(fn, '_bqv_pointed', False):
+                w = pointed(fn, f'prepare:{name}')
+                w._bqv_pointed = True
+                setattr(summ, name, w)
+    for cls in [query_env.BeanTable, *_all_subclasses(query_env.BeanTable)]:
+        for name in ('prepare', 'update', '__iter__'):
+            if name in cls.__dict__ and callable(cls.__dict__[name]):
+                setattr(cls, name, pointed(cls.__dict__[name], f'table:{name}'))
+    for mod, names in ((query_execute, ('execute_query', 'execute_select', 'execute_print')),):
+        for name in names:
+            if callable(getattr(mod, name, None)):
+                setattr(mod, name, pointed(getattr(mod, name), f'execute:{name}'))
 
 
 # ---------------------------------------------------------------------------
